@@ -1108,6 +1108,60 @@ func ruleGenericCodec(c *Ctx) {
 			}
 			return true
 		})
+		// the decoder written as one big-endian loop over the operand's bytes
+		// (`for _, b := range ins[off : off+width] { v = v<<8 | T(b) }`): right
+		// for every width as long as the accumulator is wide enough
+		if len(found) == 0 && spec.fd.Name.Name == "ReadOperands" {
+			var acc types.Object
+			var loopAt ast.Node
+			ast.Inspect(spec.fd.Body, func(n ast.Node) bool {
+				rs, ok := n.(*ast.RangeStmt)
+				if !ok || len(rs.Body.List) != 1 {
+					return true
+				}
+				as, ok := rs.Body.List[0].(*ast.AssignStmt)
+				if !ok || len(as.Lhs) != 1 || len(as.Rhs) != 1 {
+					return true
+				}
+				id, ok := as.Lhs[0].(*ast.Ident)
+				if !ok {
+					return true
+				}
+				b, ok := ast.Unparen(as.Rhs[0]).(*ast.BinaryExpr)
+				if !ok || b.Op != token.OR {
+					return true
+				}
+				sh, ok := ast.Unparen(b.X).(*ast.BinaryExpr)
+				if !ok || sh.Op != token.SHL || w.Src(sh.X) != id.Name {
+					return true
+				}
+				if k, ok := ConstInt(spec.p, sh.Y); !ok || k != 8 {
+					return true
+				}
+				acc, loopAt = spec.p.TypesInfo.ObjectOf(id), rs
+				return true
+			})
+			if acc != nil {
+				bits := 0
+				if bt, ok := acc.Type().Underlying().(*types.Basic); ok {
+					switch bt.Kind() {
+					case types.Int, types.Uint, types.Int64, types.Uint64, types.Uintptr:
+						bits = 64
+					case types.Int32, types.Uint32:
+						bits = 32
+					case types.Int16, types.Uint16:
+						bits = 16
+					case types.Int8, types.Uint8:
+						bits = 8
+					}
+				}
+				for _, wd := range []int{1, 2, 4} {
+					found[wd] = true
+					c.check(bits >= 8*wd && !(bits == 32 && wd == 4 && strings.HasPrefix(acc.Type().String(), "int")), fmt.Sprintf("generic/%s/width%d", spec.fd.Name.Name, wd), loopAt,
+						"big-endian loop into an accumulator wide enough", fmt.Sprintf("the big-endian loop accumulates into a %s: a %d-byte operand loses its high bytes (the optimizer then sees other jump targets than the VM)", acc.Type(), wd))
+				}
+			}
+		}
 		for _, wd := range []int{1, 2, 4} {
 			if !found[wd] {
 				c.fail(fmt.Sprintf("generic/%s/width%d", spec.fd.Name.Name, wd), spec.fd, "no arm for this operand width")
